@@ -5,72 +5,95 @@ from ..index import AnalysisError, dotted
 from ..astutil import text, short, endswith, calls_in, walk_no_nested
 from ..dataflow import DefUse
 from .. import events as E
+from . import _h_D as H
 
 EXPLANATION = (
   "Decides (R1) that every column _dump_table emits has one value per row *by construction*: the "
-  "row dictionaries, each transposed column and the parent-reference column are comprehensions "
-  "with a single unfiltered generator over the same never-modified `rows`, every Col is built "
-  "that way, and the emitted metadata and data iterate the same column dict unfiltered; (R2) that "
-  "add_row visits every key of every object, recurses for every dict and every list element "
-  "(passing the parent row for list elements), stores a scalar only under the include test, "
-  "creates the row reference with the 1-based position the row is about to take, and that "
-  "dumps() adds every top-level item. Not decided: placement of every scalar, type inference of "
+  "row dictionaries, each transposed column and the parent-reference column are built by one "
+  "unfiltered pass (comprehension or accumulating loop) over the same never-modified `rows`, every "
+  "Col is built that way, and the emitted metadata and data iterate the same column dict "
+  "unfiltered; (R2) that add_row visits every key of every object, recurses for every dict and "
+  "every list element (passing the parent row for list elements), stores a scalar only under the "
+  "include test, creates the row reference with the 1-based position the row is about to take, "
+  "and that dumps() adds every top-level item; (R3) that the parent-reference column holds each "
+  "row's own parent and is added whenever *some* row of the table has a parent (the test scans "
+  "all rows, not particular ones). Guards are read from the CFG (if/else polarity, early "
+  "continue/return, `and` chains are equivalent), locals are compared by the value they stand "
+  "for, private helpers are followed. Not decided: placement of every scalar, type inference of "
   "columns, the include/exclude prefix semantics.")
 
 M = "imports.import_json"
+# module helpers the rules anchor on (never inlined into their callers)
+KEEP = ("_transpose", "_dictify", "_is_included", "_dump_table", "_dump_value", "_grist_type")
 
 
 def check(run, repo, tier):
   w = World(repo)
   r1_equal_length(run, w)
   r2_add_row(run, w)
+  r3_parent_column(run, w)
 
 
-def _plain_listcomp(e, over):
-  """[<elt> for x in <over>] with one generator, no filter, not async."""
-  return isinstance(e, ast.ListComp) and len(e.generators) == 1 and \
-      not e.generators[0].ifs and not e.generators[0].is_async and \
-      text(e.generators[0].iter) == over
+def _returns(fn):
+  return [s for s in walk_no_nested(fn.node) if isinstance(s, ast.Return)]
 
 
-def _unwritten(fn, name):
-  du = DefUse(fn)
-  w = du.defs.get(name, set()) | du.muts.get(name, set())
-  # comprehension targets shadow nothing here; a parameter has no defining node
-  return not w
+def _coll(v, e):
+  """Collection view of an expression (through locals); None when it is not one."""
+  if e is None:
+    return None
+  try:
+    return v.collection(e)
+  except AnalysisError:
+    return None
+
+
+def _over_all(coll, over):
+  """The collection is built from one unfiltered pass over `over` (text of the iterable)."""
+  return coll is not None and not coll.conds and coll.iter_text == over
+
+
+def _never_stops(loop):
+  return not any(isinstance(z, (ast.Break, ast.Return)) for b in loop.body
+                 for z in walk_no_nested(b)) and not loop.orelse
 
 
 def r1_equal_length(run, w):
   R1 = run.rule("C33-R1", "every emitted column is an unfiltered comprehension over the same "
                 "row list (equal length by construction)", floor=9)
-  dt = w.fn(M + "._dump_table")
-  tp = w.fn(M + "._transpose")
+  dt = H.xfn(w, M + "._dump_table", keep=KEEP)
+  tp = H.xfn(w, M + "._transpose", keep=KEEP)
+  vd, vt = H.View(dt), H.View(tp)
   rows = dt.fi.params()[1]
   trows = tp.fi.params()[0]
-  run.ob(R1, dt.qualname, "%s is not written" % rows, "the row list stays the same object and "
-         "length throughout _dump_table", _unwritten(dt, rows), fi=dt.fi)
-  run.ob(R1, tp.qualname, "%s is not written" % trows, "the row list stays the same throughout "
-         "_transpose", _unwritten(tp, trows), fi=tp.fi)
-  # _dump_table -> _transpose([r.values for r in rows])
+  for (fn, v, p) in ((dt, vd, rows), (tp, vt, trows)):
+    wr = {n for n, names in v._gens().items() if p in names} | v.du.muts.get(p, set())
+    run.ob(R1, fn.qualname, "%s is not written" % p, "the row list stays the same object and "
+           "length throughout %s" % fn.fi.name, not wr, fi=fn.fi)
+  # _dump_table -> _transpose(<one value dictionary per row>)
   calls = [c for (n, c, nm) in dt.calls() if nm == "_transpose"]
-  ok = len(calls) == 1 and len(calls[0].args) == 1 and _plain_listcomp(calls[0].args[0], rows)
+  if len(calls) != 1:
+    raise AnalysisError("_dump_table: one call of _transpose expected")
+  c = _coll(vd, calls[0].args[0]) if len(calls[0].args) == 1 and not calls[0].keywords else None
+  ok = c is not None and c.kind == "list" and _over_all(c, rows) and c.value == "_v0.values"
   run.ob(R1, dt.qualname, "_transpose([r.values for r in %s])" % rows,
          "one value dictionary per row reaches the transposition (no row is filtered out)", ok,
-         fi=dt.fi, node=calls[0] if calls else None)
+         fi=dt.fi, node=calls[0])
   colsvar = None
   for s in walk_no_nested(dt.node):
-    if isinstance(s, ast.Assign) and calls and s.value is calls[0] and \
-        isinstance(s.targets[0], ast.Name):
+    if isinstance(s, ast.Assign) and s.value is calls[0] and isinstance(s.targets[0], ast.Name):
       colsvar = s.targets[0].id
   if colsvar is None:
     raise AnalysisError("_dump_table: result of _transpose is not bound to a local")
   # every Col(...) built anywhere in the module carries an unfiltered comprehension over rows
   ncol = 0
-  for fn, rv in ((dt, rows), (tp, trows)):
+  for fn, v, rv in ((dt, vd, rows), (tp, vt, trows)):
     for c in calls_in(fn.node.body):
       if dotted(c.func) == "Col":
         ncol += 1
-        ok = len(c.args) == 2 and not c.keywords and _plain_listcomp(c.args[1], rv)
+        b = H.bind_args(c, ("type", "values")) or {}
+        cc = _coll(v, b.get("values"))
+        ok = cc is not None and cc.kind == "list" and _over_all(cc, rv)
         run.ob(R1, fn.qualname, short(c), "a column's values are computed once per row of the "
                "table, rows without the key included", ok, fi=fn.fi, node=c)
   others = [fi.qualname for fi in w.repo.all_functions() if fi.module.name == M and
@@ -79,65 +102,39 @@ def r1_equal_length(run, w):
   run.ob(R1, M, "Col(...) constructed only in _dump_table and _transpose",
          "no other code builds columns of another length", not others and ncol >= 2,
          witness=", ".join(others) or None, fi=dt.fi)
-  # _transpose: every key seen in any row gets a column; returned dict holds only those
-  keysrc = None
-  for s in tp.node.body:
-    if isinstance(s, ast.For) and isinstance(s.iter, ast.Call) and \
-        dotted(s.iter.func) == "reversed" and text(s.iter.args[0]) == trows and \
-        len(s.body) == 1 and isinstance(s.body[0], ast.Expr) and \
-        isinstance(s.body[0].value, ast.Call) and \
-        isinstance(s.body[0].value.func, ast.Attribute) and \
-        s.body[0].value.func.attr == "update" and \
-        text(s.body[0].value.args[0]) == text(s.target):
-      keysrc = text(s.body[0].value.func.value)
-  fill = [s for s in tp.node.body if isinstance(s, ast.For) and keysrc is not None and
-          text(s.iter) == keysrc + ".items()"]
-  ok = False
-  retvar = None
-  if len(fill) == 1 and isinstance(fill[0].target, ast.Tuple):
-    kv = text(fill[0].target.elts[0])
-    st = [b for b in fill[0].body if isinstance(b, ast.Assign) and
-          isinstance(b.targets[0], ast.Subscript) and text(b.targets[0].slice) == kv]
-    if len(st) == 1 and len(fill[0].body) == 1:
-      retvar = text(st[0].targets[0].value)
-      v = st[0].value
-      e = v.args[1].elt if isinstance(v, ast.Call) and len(v.args) == 2 and \
-          isinstance(v.args[1], ast.ListComp) else None
-      rowv = text(v.args[1].generators[0].target) if e is not None else None
-      ok = e is not None and text(e) in ("%s.get(%s, None)" % (rowv, kv),
-                                         "%s.get(%s)" % (rowv, kv))
-  rets = [s for s in walk_no_nested(tp.node) if isinstance(s, ast.Return)]
-  ok = ok and len(rets) == 1 and text(rets[0].value) == retvar
-  run.ob(R1, tp.qualname, "for key in <union of all rows' keys>: transpose[key] = Col(.., "
-         "[row.get(key, None) for row in rows])",
-         "every key of any row becomes a column and a row lacking the key contributes None at "
-         "its own position", ok, fi=tp.fi)
+  _transpose_keys(run, R1, tp, vt, trows)
   # the emitted dict: metadata and data iterate the same columns, unfiltered
-  rets = [s for s in walk_no_nested(dt.node) if isinstance(s, ast.Return)]
-  if len(rets) != 1 or not isinstance(rets[0].value, ast.Dict):
+  rets = _returns(dt)
+  rv = vd.res(rets[0].value) if len(rets) == 1 else None
+  if not isinstance(rv, ast.Dict):
     raise AnalysisError("_dump_table no longer returns one dict literal")
-  out = {k.value: v for k, v in zip(rets[0].value.keys, rets[0].value.values)
-         if isinstance(k, ast.Constant)}
-  md, td = out.get("column_metadata"), out.get("table_data")
-  ok = _plain_listcomp(md, colsvar + ".items()") and _plain_listcomp(td, colsvar + ".values()")
+  out = {k.value: x for k, x in zip(rv.keys, rv.values) if isinstance(k, ast.Constant)}
+  md = _coll(vd, out.get("column_metadata"))
+  td = _coll(vd, out.get("table_data"))
+  ok = md is not None and td is not None and md.kind == "list" and td.kind == "list" and \
+      _over_all(md, colsvar + ".items()") and _over_all(td, colsvar + ".values()")
   if ok:
-    inner = td.elt
-    cv = text(td.generators[0].target)
-    ok = _plain_listcomp(inner, cv + ".values")
+    # each element of table_data is itself one value per row of the column
+    e = vd.res(out["table_data"])
+    elt = e.elt if isinstance(e, ast.ListComp) else None
+    inner = _coll(vd, elt) if elt is not None else None
+    ok = inner is not None and not inner.conds and \
+        text(H._Renamer(dict(td.mapping)).visit(vd.x(inner.iter, at=vd.point_of(e)))) == \
+        "_v0.values"
   run.ob(R1, dt.qualname, "column_metadata over %s.items(), table_data over %s.values() / "
          "col.values" % (colsvar, colsvar), "metadata and data list the same columns in the "
          "same order and every value of every column is emitted", ok, fi=dt.fi,
          node=rets[0])
   # nothing but _transpose's result and the parent column enters the column dict
-  du = DefUse(dt)
-  writers = du.defs.get(colsvar, set()) | du.muts.get(colsvar, set())
+  writers = {n for n, names in vd._gens().items() if colsvar in names} | \
+      vd.du.muts.get(colsvar, set())
   bad = []
   for nid in writers:
     s = dt.cfg.nodes[nid].stmt
     if isinstance(s, ast.Assign) and s.value is calls[0]:
       continue
     if isinstance(s, ast.Assign) and isinstance(s.targets[0], ast.Subscript) and \
-        isinstance(s.value, ast.Call) and dotted(s.value.func) == "Col":
+        vd.denotes(s.value, lambda e: isinstance(e, ast.Call) and dotted(e.func) == "Col"):
       continue
     bad.append(short(s))
   run.ob(R1, dt.qualname, "%s written only by _transpose(...) and %s[..] = Col(...)"
@@ -145,136 +142,343 @@ def r1_equal_length(run, w):
          witness="; ".join(bad) or None, fi=dt.fi)
 
 
+def _transpose_keys(run, R1, tp, vt, trows):
+  """_transpose: every key seen in any row gets a column; the returned dict holds those."""
+  cfg = tp.cfg
+  keysrc = None
+  for (n, c, nm) in tp.calls():
+    f = c.func
+    if not (isinstance(f, ast.Attribute) and f.attr == "update" and len(c.args) == 1 and
+            isinstance(f.value, ast.Name)):
+      continue
+    loops = vt.enclosing_loops(n.stmt)
+    if len(loops) != 1 or not isinstance(loops[0], ast.For) or \
+        not isinstance(loops[0].target, ast.Name):
+      continue
+    lp = loops[0]
+    it = vt.x(lp.iter)
+    if isinstance(it, ast.Call) and dotted(it.func) == "reversed" and len(it.args) == 1:
+      it = it.args[0]
+    tm = vt.loop_map(lp)
+    if text(it) == trows and vt.t(c.args[0], tm) == "_v0" and vt.runs_for_all(lp, c):
+      keysrc = f.value.id
+  ok = False
+  retvar = None
+  if keysrc is not None:
+    for n in cfg.nodes:
+      s = n.stmt
+      if not (n.kind == "stmt" and isinstance(s, ast.Assign) and len(s.targets) == 1 and
+              isinstance(s.targets[0], ast.Subscript) and
+              isinstance(s.targets[0].value, ast.Name)):
+        continue
+      loops = vt.enclosing_loops(s)
+      if len(loops) != 1 or not isinstance(loops[0], ast.For):
+        continue
+      lp = loops[0]
+      it = vt.t(lp.iter)
+      tg = lp.target
+      tm = vt.loop_map(lp)
+      if it == keysrc + ".items()" and isinstance(tg, ast.Tuple) and len(tg.elts) == 2:
+        kv = "_v0_0"
+      elif it in (keysrc, keysrc + ".keys()") and isinstance(tg, ast.Name):
+        kv = "_v0"
+      else:
+        continue
+      if not vt.runs_for_all(lp, s) or vt.t(s.targets[0].slice, tm) != kv:
+        continue
+      col = vt.res(s.value)
+      b = H.bind_args(col, ("type", "values")) if isinstance(col, ast.Call) and \
+          dotted(col.func) == "Col" else None
+      cc = _coll(vt, b.get("values")) if b else None
+      if cc is None or cc.conds or cc.iter_text != trows:
+        continue
+      # the element, with the outer loop's key variable as placeholder
+      e = vt.res(b["values"])
+      elt = e.elt if isinstance(e, ast.ListComp) else None
+      if elt is None:
+        continue
+      m2 = dict(tm)
+      m2.update({k: "_r" for k in cc.mapping})
+      got = text(H._Renamer(m2).visit(vt.x(elt, at=n.id)))
+      if got in ("_r.get(%s, None)" % kv, "_r.get(%s)" % kv):
+        ok = True
+        retvar = s.targets[0].value.id
+  rets = _returns(tp)
+  ok = ok and len(rets) == 1 and vt.t(rets[0].value) == retvar
+  run.ob(R1, tp.qualname, "for key in <union of all rows' keys>: transpose[key] = Col(.., "
+         "[row.get(key, None) for row in rows])",
+         "every key of any row becomes a column and a row lacking the key contributes None at "
+         "its own position", ok, fi=tp.fi)
+
+
+def _branch_ok(facts, val, want, allowed_extra=()):
+  """facts = what is known relative to the start of one iteration. `want`: the type whose branch
+  this is ('dict' / 'list' / None for the scalar branch). Only type tests of the item may
+  restrict the branch (plus `allowed_extra` atoms, which must then be known true)."""
+  seen = False
+  for (a, pol) in facts:
+    if want is not None and a == "isinstance(%s, %s)" % (val, want) and pol is True:
+      seen = True
+    elif a.startswith("isinstance(%s, " % val) and pol is False:
+      continue
+    elif a in allowed_extra and pol is True:
+      continue
+    else:
+      return False
+  if want is None:
+    return {("isinstance(%s, dict)" % val, False), ("isinstance(%s, list)" % val, False)} <= facts
+  return seen
+
+
 def r2_add_row(run, w):
   R2 = run.rule("C33-R2", "add_row visits every key, recurses into every dict and list element, "
                 "stores scalars under the include test, numbers rows by position", floor=9)
-  fn = w.fn(M + ".Tables.add_row")
+  fn = H.xfn(w, M + ".Tables.add_row", keep=KEEP)
+  v = H.View(fn)
+  cfg = fn.cfg
   q = fn.qualname
   ps = fn.fi.params()      # self, table, value, parent
   if len(ps) != 4:
     raise AnalysisError("Tables.add_row signature changed: %s" % ps)
   _, p_table, p_value, p_parent = ps
-  loops = [s for s in fn.node.body if isinstance(s, ast.For)]
+  params = ps[1:]
+  loops = [s for s in walk_no_nested(fn.node) if isinstance(s, ast.For) and
+           isinstance(s.target, ast.Tuple) and len(s.target.elts) == 2 and
+           ".items()" in v.t(s.iter)]
   if len(loops) != 1:
     raise AnalysisError("Tables.add_row: one loop over the value's items expected")
   lp = loops[0]
-  it = lp.iter
+  tm = v.loop_map(lp)
+  head = tm.head
+  it = v.x(lp.iter)
   inner = it.args[0] if isinstance(it, ast.Call) and dotted(it.func) == "sorted" and \
       len(it.args) == 1 and not it.keywords else it
-  ok = text(inner) == p_value + ".items()" and isinstance(lp.target, ast.Tuple) and \
-      len(lp.target.elts) == 2
-  run.ob(R2, q, "for (k, val) in sorted(%s.items())" % p_value, "every key of the object is "
-         "visited (no slice, no filter)", ok, fi=fn.fi, node=lp)
+  # the loop runs on every path, over all items of the dictified value
+  ok = text(inner) == "_dictify(%s).items()" % p_value and \
+      cfg.dominated_by(cfg.exit.id, {head}) and \
+      not any(isinstance(z, ast.Break) for b in lp.body for z in walk_no_nested(b))
+  run.ob(R2, q, "for (k, val) in sorted(_dictify(%s).items())" % p_value, "every key of the "
+         "object is visited (no slice, no filter) and a non-object item is stored under the "
+         "unnamed column instead of being dropped", ok, fi=fn.fi, node=lp)
   if not ok:
     return
-  kv, vv = [text(e) for e in lp.target.elts]
-  # value = _dictify(value) before the loop: scalars become {'': value}
-  pre = [s for s in fn.node.body[:fn.node.body.index(lp)] if isinstance(s, ast.Assign) and
-         text(s.targets[0]) == p_value]
-  ok = len(pre) == 1 and text(pre[0].value) == "_dictify(%s)" % p_value
-  run.ob(R2, q, "%s = _dictify(%s)" % (p_value, p_value), "a non-object item is stored under "
-         "the unnamed column instead of being dropped", ok, fi=fn.fi)
+  kv, vv = "_v0_0", "_v0_1"
   dfy = w.fn(M + "._dictify")
-  rets = [s for s in walk_no_nested(dfy.node) if isinstance(s, ast.Return)]
+  dv = H.View(dfy)
   dp = dfy.fi.params()[0]
-  ok = len(rets) == 1 and text(rets[0].value) == \
-      "%s if isinstance(%s, dict) else {'': %s}" % (dp, dp, dp)
+  arms = H.decision_arms(dfy.node)
+  got = sorted((sorted(a.facts(dv)), a.kind, text(a.value)) for a in arms)
+  want = sorted([([("isinstance(%s, dict)" % dp, True)], "return", dp),
+                 ([("isinstance(%s, dict)" % dp, False)], "return", "{'': %s}" % dp)])
   run.ob(R2, dfy.qualname, "return value if isinstance(value, dict) else {'': value}",
-         "objects are kept as they are, anything else becomes a one-cell row", ok, fi=dfy.fi)
-  # the if / elif / else chain of the loop body
-  if len(lp.body) != 1 or not isinstance(lp.body[0], ast.If):
-    raise AnalysisError("Tables.add_row: loop body is not one if/elif/else chain")
-  c1 = lp.body[0]
-  c2 = c1.orelse[0] if len(c1.orelse) == 1 and isinstance(c1.orelse[0], ast.If) else None
-  if c2 is None or not c2.orelse:
-    raise AnalysisError("Tables.add_row: dict / list / scalar chain not recognised")
+         "objects are kept as they are, anything else becomes a one-cell row", got == want,
+         fi=dfy.fi)
   rowvar = _row_var(fn)
   sub = "%s + '_' + %s" % (p_table, kv)
-  # dict branch
-  ok = text(c1.test) == "isinstance(%s, dict)" % vv
-  rec = [c for b in c1.body for c in calls_in(b) if text(c.func) == "self.add_row"]
-  ok = ok and len(rec) == 1 and len(rec[0].args) == 2 and text(rec[0].args[0]) == sub and \
-      text(rec[0].args[1]) == vv and isinstance(c1.body[0], ast.Assign) and \
-      c1.body[0].value is rec[0]
-  run.ob(R2, q, "if isinstance(%s, dict): self.add_row(%s, %s)" % (vv, sub, vv),
-         "every nested object (empty ones included) becomes a row of the sub-table named after "
-         "its key, unconditionally", ok, fi=fn.fi, node=c1)
-  refv = text(c1.body[0].targets[0]) if ok else None
-  st = [b for x in c1.body for b in ast.walk(x) if isinstance(b, ast.Assign) and
-        isinstance(b.targets[0], ast.Subscript) and
-        text(b.targets[0]) == "%s.values[%s]" % (rowvar, kv)]
-  ok = ok and len(st) == 1 and text(st[0].value) == "%s.ref" % refv
-  run.ob(R2, q, "%s.values[%s] = <sub-row>.ref" % (rowvar, kv), "the parent's cell holds the "
-         "reference of the row just created for the nested object", ok, fi=fn.fi, node=c1)
-  # list branch
-  ok = text(c2.test) == "isinstance(%s, list)" % vv and len(c2.body) == 1 and \
-      isinstance(c2.body[0], ast.For) and text(c2.body[0].iter) == vv
+  in_loop = lambda node: any(y is node for b in lp.body for y in ast.walk(b))
+  recs = [(n, c) for (n, c, nm) in fn.calls() if text(c.func) == "self.add_row" and in_loop(c)]
+
+  def info_of(c, mapping):
+    b = H.bind_args(c, params)
+    return {k: v.t(x, mapping) for k, x in b.items()} if b is not None else None
+
+  # dict branch: the item itself is handed to the recursive call
+  dict_calls = [(n, c) for (n, c) in recs if (info_of(c, tm) or {}).get(p_value) == vv]
+  ok = len(dict_calls) == 1
   if ok:
-    lv = text(c2.body[0].target)
-    rec = [c for b in c2.body[0].body for c in calls_in(b) if text(c.func) == "self.add_row"]
-    ok = len(c2.body[0].body) == 1 and len(rec) == 1 and \
-        [text(a) for a in rec[0].args] == [sub, lv, rowvar] and not rec[0].keywords
-  run.ob(R2, q, "elif isinstance(%s, list): for x in %s: self.add_row(%s, x, %s)"
-         % (vv, vv, sub, rowvar), "every element of every array becomes a sub-table row that "
-         "points back to this row", ok, fi=fn.fi, node=c2)
+    n, c = dict_calls[0]
+    info = info_of(c, tm)
+    ok = info.get(p_table) == sub and info.get(p_parent, "None") == "None" and \
+        _branch_ok(v.facts_at(c, start=head, mapping=tm), vv, "dict")
+  run.ob(R2, q, "if isinstance(val, dict): self.add_row(%s, val)" % sub,
+         "every nested object (empty ones included) becomes a row of the sub-table named after "
+         "its key, unconditionally", ok, fi=fn.fi, node=dict_calls[0][1] if dict_calls else lp)
+  stores = []
+  for n in cfg.nodes:
+    s = n.stmt
+    if n.kind == "stmt" and isinstance(s, ast.Assign) and len(s.targets) == 1 and \
+        isinstance(s.targets[0], ast.Subscript) and in_loop(s) and \
+        v.t(s.targets[0].value, tm) == "%s.values" % rowvar:
+      stores.append((n, s))
+  subrow = v.t(dict_calls[0][1], tm) if dict_calls else None
+  ref_stores = [(n, s) for (n, s) in stores if subrow and v.t(s.value, tm) == "%s.ref" % subrow]
+  ok = len(ref_stores) == 1
+  if ok:
+    n, s = ref_stores[0]
+    ok = v.t(s.targets[0].slice, tm) == kv and \
+        _branch_ok(v.facts_at(s, start=head, mapping=tm), vv, "dict",
+                   allowed_extra=(rowvar, subrow)) and \
+        n.id in cfg.reach_after({dict_calls[0][0].id})
+  run.ob(R2, q, "%s.values[k] = <sub-row>.ref" % rowvar, "the parent's cell holds the "
+         "reference of the row just created for the nested object", ok, fi=fn.fi,
+         node=ref_stores[0][1] if ref_stores else lp)
+  # list branch: every element, with this row as parent
+  list_calls = [(n, c) for (n, c) in recs if not (dict_calls and c is dict_calls[0][1])]
+  ok = len(list_calls) == 1
+  if ok:
+    n, c = list_calls[0]
+    inner_loops = [l for l in v.enclosing_loops(n.stmt) if l is not lp]
+    ok = len(inner_loops) == 1 and isinstance(inner_loops[0], ast.For) and \
+        isinstance(inner_loops[0].target, ast.Name)
+    if ok:
+      il = inner_loops[0]
+      tm2 = H.LoopMap(dict(tm), None)
+      tm2[il.target.id] = "_e"
+      tm2["%s@%d" % (il.target.id, v.loop_head(il))] = "_e"
+      for k in list(tm):
+        tm2["%s@%d" % (k, head)] = tm[k]
+      ok = v.t(il.iter, tm) == vv and _never_stops(il) and v.runs_for_all(il, c) and \
+          info_of(c, tm2) == {p_table: sub, p_value: "_e", p_parent: rowvar} and \
+          _branch_ok(v.facts_at(il, start=head, mapping=tm), vv, "list")
+  run.ob(R2, q, "elif isinstance(val, list): for x in val: self.add_row(%s, x, %s)"
+         % (sub, rowvar), "every element of every array becomes a sub-table row that "
+         "points back to this row", ok, fi=fn.fi, node=list_calls[0][1] if list_calls else lp)
   # scalar branch
-  els = c2.orelse
-  ok = len(els) == 1 and isinstance(els[0], ast.If) and not els[0].orelse and \
-      text(els[0].test) == "%s and self._is_included(%s)" % (rowvar, sub) and \
-      len(els[0].body) == 1 and isinstance(els[0].body[0], ast.Assign) and \
-      text(els[0].body[0].targets[0]) == "%s.values[%s]" % (rowvar, kv) and \
-      text(els[0].body[0].value) == vv
-  run.ob(R2, q, "else: if %s and self._is_included(%s): %s.values[%s] = %s"
-         % (rowvar, sub, rowvar, kv, vv), "a scalar is stored, as it is, in its own row under "
-         "its own key, subject only to the include/exclude test", ok, fi=fn.fi, node=c2)
+  sc = [(n, s) for (n, s) in stores if (n, s) not in ref_stores]
+  ok = len(sc) == 1
+  if ok:
+    n, s = sc[0]
+    inc = "self._is_included(%s)" % sub
+    facts = v.facts_at(s, start=head, mapping=tm)
+    ok = v.t(s.targets[0].slice, tm) == kv and v.t(s.value, tm) == vv and \
+        _branch_ok(facts, vv, None, allowed_extra=(rowvar, inc)) and (inc, True) in facts
+  run.ob(R2, q, "else: if %s and self._is_included(%s): %s.values[k] = val"
+         % (rowvar, sub, rowvar), "a scalar is stored, as it is, in its own row under "
+         "its own key, subject only to the include/exclude test", ok, fi=fn.fi,
+         node=sc[0][1] if sc else lp)
   # row creation: Ref(table, len(rows)+1) then rows.append(row), once, under the include test
-  cfg = fn.cfg
   mk = [(n, c) for (n, c, nm) in fn.calls() if nm == "Row"]
   app = [(n, c) for (n, c, nm) in fn.calls() if isinstance(c.func, ast.Attribute) and
-         c.func.attr == "append" and len(c.args) == 1 and text(c.args[0]) == rowvar]
+         c.func.attr == "append" and len(c.args) == 1 and mk and
+         v.t(c.args[0]) in (rowvar, v.t(mk[0][1]))]
   ok = len(mk) == 1 and len(app) == 1
   if ok:
-    rowsv = text(app[0][1].func.value)
-    a = mk[0][1].args
-    ok = len(a) == 3 and text(a[1]) == p_parent and \
-        text(a[2]) in ("Ref(%s, len(%s) + 1)" % (p_table, rowsv),
-                       "Ref(%s, 1 + len(%s))" % (p_table, rowsv)) and \
+    rowsv = v.t(app[0][1].func.value)
+    b = H.bind_args(mk[0][1], ("values", "parent", "ref")) or {}
+    ref = v.x(b.get("ref"))
+    rb = H.bind_args(ref, ("table_name", "rowid")) if isinstance(ref, ast.Call) and \
+        dotted(ref.func) == "Ref" else None
+    ok = rb is not None and v.t(b.get("parent")) == p_parent and \
+        text(rb.get("table_name")) == p_table and \
+        text(rb.get("rowid")) in ("len(%s) + 1" % rowsv, "1 + len(%s)" % rowsv) and \
         app[0][0].id in cfg.reach_after({mk[0][0].id}) and \
         mk[0][0].id not in cfg.reach_after({app[0][0].id}) and \
-        cfg.postdominated_by(mk[0][0].id, {app[0][0].id})
-    src = [v for v in E.local_defs(fn.node, rowsv)]
-    ok = ok and len(src) == 1 and text(src[0]) == "self._tables.setdefault(%s, [])" % p_table
+        cfg.postdominated_by(mk[0][0].id, {app[0][0].id}) and \
+        rowsv == "self._tables.setdefault(%s, [])" % p_table
   run.ob(R2, q, "row = Row(.., %s, Ref(%s, len(rows)+1)); rows.append(row)" % (p_parent, p_table),
          "a row's reference is its 1-based position in its table (what a Ref column stores), and "
          "it remembers its parent", ok, fi=fn.fi)
-  rets = [s for s in walk_no_nested(fn.node) if isinstance(s, ast.Return)]
+  rets = _returns(fn)
   run.ob(R2, q, "return %s" % rowvar, "the caller receives the row it must reference",
-         len(rets) == 1 and text(rets[0].value) == rowvar, fi=fn.fi)
-  # dumps(): every top-level item becomes a row of the main table
-  dm = w.fn(M + ".dumps")
+         len(rets) == 1 and v.t(rets[0].value) == rowvar, fi=fn.fi)
+  _dumps(run, R2, w, params, p_table, p_value, p_parent)
+
+
+def _dumps(run, R2, w, params, p_table, p_value, p_parent):
+  """dumps(): every top-level item becomes a row of the main table."""
+  dm = H.xfn(w, M + ".dumps", keep=KEEP)
+  vm = H.View(dm)
   dp = dm.fi.params()
-  lps = [s for s in dm.node.body if isinstance(s, ast.For) and text(s.iter) == dp[0]]
-  ok = len(lps) == 1 and len(lps[0].body) == 1 and not lps[0].orelse and \
-      text(lps[0].body[0]) == "tables.add_row(%s, %s)" % (dp[1], text(lps[0].target))
-  wrap = [s for s in dm.node.body if isinstance(s, ast.If) and
-          text(s.test) == "not isinstance(%s, list)" % dp[0] and len(s.body) == 1 and
-          text(s.body[0]) == "%s = [%s]" % (dp[0], dp[0])]
+  ok = False
+  for (n, c, nm) in dm.calls():
+    if not (isinstance(c.func, ast.Attribute) and c.func.attr == "add_row" and
+            vm.denotes(c.func.value, lambda e: isinstance(e, ast.Call) and
+                       dotted(e.func) == "Tables")):
+      continue
+    loops_ = vm.enclosing_loops(n.stmt)
+    if len(loops_) != 1 or not isinstance(loops_[0], ast.For) or \
+        not isinstance(loops_[0].target, ast.Name):
+      continue
+    l = loops_[0]
+    tm = vm.loop_map(l)
+    b = H.bind_args(c, params) or {}
+    h = tm.head
+    whole = text(l.iter) == dp[0] and vm.runs_for_all(l, c) and _never_stops(l) and \
+        dm.cfg.dominated_by(dm.cfg.exit.id, {h})
+    # at the loop, data is the list itself, or the single item wrapped in a list when it is
+    # not a list
+    defs = vm.reaching(dp[0], h)
+    wraps = [d for d in defs if d != vm.ENTRY]
+    wrap_ok = vm.ENTRY in defs and len(wraps) == 1
+    if wrap_ok:
+      val = vm._plain_value(dp[0], wraps[0])
+      wrap_ok = val is not None and text(val) == "[%s]" % dp[0] and \
+          ("isinstance(%s, list)" % dp[0], False) in vm.cfg_facts(wraps[0]) and \
+          _reaches_unwrapped_only_as_list(vm, dm, dp[0], h, wraps[0])
+    ok = ok or (whole and vm.t(b.get(p_table), tm) == dp[1] and
+                vm.t(b.get(p_value), tm) == "_v0" and p_parent not in b and wrap_ok)
   run.ob(R2, dm.qualname, "for val in %s: tables.add_row(%s, val)" % (dp[0], dp[1]),
          "every top-level item (or the single root object) becomes a row of the main table",
-         ok and len(wrap) == 1, fi=dm.fi)
-  # the parent column of _dump_table reads the same parent link add_row stored
-  dt = w.fn(M + "._dump_table")
+         ok, fi=dm.fi)
+
+
+def _reaches_unwrapped_only_as_list(vm, dm, name, head, wrap):
+  """Every path from the entry to the loop that does not pass the wrapping assignment crosses
+  the false branch of `if not isinstance(data, list)` (i.e. data is a list)."""
+  cfg = dm.cfg
+  key = ("isinstance(%s, list)" % name, True)
+  edges = vm._edges().get(key, set())
+  r = vm._reach_cut({cfg.entry.id}, set(edges) | {(p, wrap) for p in cfg.pred[wrap]})
+  return head not in r
+
+
+def r3_parent_column(run, w):
+  """The back-reference column of a sub-table: present whenever *any* row has a parent."""
+  R3 = run.rule("C33-R3", "the parent-reference column is added whenever some row of the table "
+                "has a parent, and holds each row's own parent", floor=2)
+  dt = H.xfn(w, M + "._dump_table", keep=KEEP)
+  v = H.View(dt)
   rows = dt.fi.params()[1]
-  pc = [c for c in calls_in(dt.node.body) if dotted(c.func) == "Col" and len(c.args) == 2 and
-        isinstance(c.args[1], ast.ListComp)]
-  ok = False
-  for c in pc:
-    g = c.args[1].generators[0]
-    rv = text(g.target)
-    if text(c.args[1].elt) == "%s.parent.ref if %s.parent else None" % (rv, rv):
-      ok = True
-  run.ob(R2, dt.qualname, "[row.parent.ref if row.parent else None for row in %s]" % rows,
+  pc = []
+  for c in calls_in(dt.node.body):
+    if dotted(c.func) != "Col":
+      continue
+    b = H.bind_args(c, ("type", "values")) or {}
+    cc = _coll(v, b.get("values"))
+    if cc is not None and ".parent" in (cc.value or ""):
+      pc.append((c, cc))
+  ok = len(pc) == 1 and pc[0][1].value == "_v0.parent.ref if _v0.parent else None" and \
+      _over_all(pc[0][1], rows)
+  run.ob(R3, dt.qualname, "[row.parent.ref if row.parent else None for row in %s]" % rows,
          "array elements point back to the row that contained them", ok, fi=dt.fi)
+  if len(pc) != 1:
+    raise AnalysisError("_dump_table: the parent-reference column was not found")
+  # under which condition is that column stored into the table?
+  col = pc[0][0]
+  site = col
+  for n in dt.cfg.nodes:
+    s = n.stmt
+    if n.kind == "stmt" and isinstance(s, ast.Assign) and isinstance(s.targets[0], ast.Subscript) \
+        and v.denotes(s.value, lambda e: e is col):
+      site = s
+  facts = v.facts_at(site)
+  scans, partial = [], []
+  for (a, pol) in facts:
+    try:
+      e = ast.parse(a, mode="eval").body
+    except SyntaxError:
+      continue
+    for y in ast.walk(e):
+      if isinstance(y, (ast.GeneratorExp, ast.ListComp, ast.SetComp)) and \
+          len(y.generators) == 1 and text(y.generators[0].iter) == rows:
+        g = y.generators[0]
+        tv = text(g.target)
+        if all(text(c) == "%s.parent" % tv for c in g.ifs) and \
+            (g.ifs or text(y.elt) == "%s.parent" % tv):
+          scans.append((a, pol))
+      if isinstance(y, ast.Subscript) and text(y.value) == rows:
+        partial.append(a)
+  wit = None
+  if partial:
+    wit = "decided from particular rows only: %s" % partial[0]
+  if not scans and not partial:
+    raise AnalysisError("_dump_table: cannot tell from which rows the presence of the parent "
+                        "column is decided: %s" % sorted(facts))
+  ok = bool(scans) and not partial and all(pol is True for (_, pol) in scans)
+  run.ob(R3, dt.qualname, "if <some row of %s has a parent>: columns[..] = Col(<parents>)" % rows,
+         "a table whose first row came from a nested object but whose later rows came from an "
+         "array still gets its reference to the parent table: the test scans all rows", ok,
+         witness=wit, fi=dt.fi, node=site)
 
 
 def _row_var(fn):
@@ -316,6 +520,12 @@ VARIANTS = [
    "        if row and self._is_included(table + '_' + k):\n", "        if row:\n", "C33-R2"),
   ("top-level-first-item-only", J, "  for val in data:\n    tables.add_row(name, val)\n",
    "  for val in data[:1]:\n    tables.add_row(name, val)\n", "C33-R2"),
+  ("parent-column-decided-from-first-row", J,
+   "  ref = next((r.parent.ref for r in rows if r.parent), None)\n",
+   "  ref = rows[0].parent.ref if rows and rows[0].parent else None\n", "C33-R3"),
+  ("parent-column-holds-first-parent", J,
+   "[row.parent.ref if row.parent else None for row in rows])",
+   "[ref for row in rows])", "C33-R3"),
   ("nested-ref-of-parent-row", J, "          row.values[k] = val.ref\n",
    "          row.values[k] = row.ref\n", "C33-R2"),
 ]
